@@ -413,3 +413,129 @@ Proof.
   intros g start R H. unfold mark in H. apply mark_loop_closed in H; [|intros ? ? []].
   exact (proj2 H).
 Qed.
+
+(* ---- the old-generation filter ---- *)
+Lemma memb_app : forall a b x, memb x (a ++ b) = memb x a || memb x b.
+Proof. intros a b x. unfold memb. apply existsb_app. Qed.
+
+Lemma refs_gprune : forall g stop x, refs (gprune g stop) x = filter (gabsent stop) (refs g x).
+Proof.
+  induction g as [|[k rs] g' IH]; intros stop x; [reflexivity|].
+  unfold gprune in *. cbn [map fst snd refs]. destruct (k =? x); [reflexivity | apply IH].
+Qed.
+
+(* a walk that stops at the members of a closed set still reaches everything *)
+Theorem mark_pruned_complete : forall g stop start R,
+  gclosed g stop -> mark_pruned g stop start = Some R ->
+  forall x, reach g start x -> memb x (R ++ stop) = true.
+Proof.
+  intros g stop start R Hc Hn x Hr. unfold mark_pruned in Hn.
+  induction Hr as [x Hx | x y Hr IH Hy]; rewrite memb_app in *.
+  - destruct (memb x stop) eqn:E; [apply orb_true_r|]. apply orb_true_iff. left. apply memb_In.
+    apply (mark_contains_start _ _ _ Hn). apply filter_In. split; [exact Hx|]. unfold gabsent. rewrite E. reflexivity.
+  - destruct (memb y stop) eqn:Ey; [apply orb_true_r|]. apply orb_true_iff. left.
+    apply orb_true_iff in IH. destruct IH as [IH|IH].
+    + apply memb_In. apply memb_In in IH. apply (mark_closed_refs _ _ _ Hn x y IH).
+      rewrite refs_gprune. apply filter_In. split; [exact Hy|]. unfold gabsent. rewrite Ey. reflexivity.
+    + rewrite (Hc x y IH Hy) in Ey. discriminate Ey.
+Qed.
+
+(* and the set it was stopped at, extended by what was marked, is closed again *)
+Theorem mark_pruned_closed : forall g stop start R,
+  gclosed g stop -> mark_pruned g stop start = Some R -> gclosed g (R ++ stop).
+Proof.
+  intros g stop start R Hc Hn x y Hx Hy. unfold mark_pruned in Hn. rewrite memb_app in *.
+  destruct (memb y stop) eqn:Ey; [apply orb_true_r|]. apply orb_true_iff. left.
+  apply orb_true_iff in Hx. destruct Hx as [Hx|Hx].
+  - apply memb_In. apply memb_In in Hx. apply (mark_closed_refs _ _ _ Hn x y Hx).
+    rewrite refs_gprune. apply filter_In. split; [exact Hy|]. unfold gabsent. rewrite Ey. reflexivity.
+  - rewrite (Hc x y Hx Hy) in Ey. discriminate Ey.
+Qed.
+
+Lemma reach_app_roots : forall g r1 r2 x, reach g (r1 ++ r2) x -> reach g r1 x \/ reach g r2 x.
+Proof.
+  intros g r1 r2 x H. induction H as [x Hx | x y Hr IH Hy].
+  - apply in_app_or in Hx. destruct Hx as [Hx|Hx]; [left | right]; apply reach_start; exact Hx.
+  - destruct IH as [IH|IH]; [left | right]; apply reach_step with (x := x); assumption.
+Qed.
+
+(* the generational (default) collection keeps everything reachable from either root class, provided the old
+   generation was closed; and it hands a closed old generation to the next collection *)
+Theorem gc_generational_safe : forall g old old_roots new_roots old' new',
+  gclosed g old ->
+  gc_generational g old old_roots new_roots = Some (old', new') ->
+  (forall x, reach g (old_roots ++ new_roots) x -> memb x (new' ++ old') = true)
+  /\ gclosed g old'.
+Proof.
+  intros g old old_roots new_roots old' new' Hc H. unfold gc_generational in H.
+  destruct (mark_pruned g old old_roots) as [a|] eqn:Ea; [|discriminate H].
+  destruct (mark_pruned g (a ++ old) new_roots) as [b|] eqn:Eb; [|discriminate H].
+  injection H as <- <-.
+  pose proof (mark_pruned_closed g old old_roots a Hc Ea) as Hc'.
+  split; [|exact Hc'].
+  intros x Hr. apply reach_app_roots in Hr. destruct Hr as [Hr|Hr].
+  - rewrite memb_app. rewrite (mark_pruned_complete g old old_roots a Hc Ea x Hr). apply orb_true_r.
+  - exact (mark_pruned_complete g (a ++ old) new_roots b Hc' Eb x Hr).
+Qed.
+
+Lemma gc_generational_total : forall g old old_roots new_roots, exists r, gc_generational g old old_roots new_roots = Some r.
+Proof.
+  intros g old o n. unfold gc_generational, mark_pruned.
+  destruct (fuel_enough (gprune g old) (filter (gabsent old) o)) as [a Ha]. rewrite Ha.
+  destruct (fuel_enough (gprune g (a ++ old)) (filter (gabsent (a ++ old)) n)) as [b Hb]. rewrite Hb.
+  eexists. reflexivity.
+Qed.
+
+(* the filter is unsound for an old generation that is not closed: that hypothesis is what it rests on *)
+Example oldgen_filter_needs_closed :
+  let g := [(1, [2]); (2, [])] in
+  gc_generational g [1] [1] [] = Some ([1], []) /\ reach g ([1] ++ []) 2 /\ memb 2 ([] ++ [1]) = false.
+Proof.
+  split; [vm_compute; reflexivity|]. split; [|reflexivity].
+  apply reach_step with (x := 1); [apply reach_start; left; reflexivity | left; reflexivity].
+Qed.
+
+(* ---- the oracle holds of the model's own observation ---- *)
+From Dolt Require Import C08.Corr.
+
+Lemma sweep_all : forall g m, (forall p, In p g -> memb (fst p) m = true) -> sweep g m = g.
+Proof.
+  induction g as [|p g' IH]; intros m H; [reflexivity|].
+  unfold sweep in *. cbn [filter]. rewrite (H p (or_introl eq_refl)). f_equal. apply IH.
+  intros q Hq. apply H. right. exact Hq.
+Qed.
+
+Lemma lookup_unique : forall g p, NoDup (map fst g) -> In p g -> lookup g (fst p) = Some (snd p).
+Proof.
+  induction g as [|q g' IH]; intros p Hnd Hin; [destruct Hin|].
+  cbn [map] in Hnd. inversion Hnd as [|? ? Hni Hnd']; subst.
+  destruct Hin as [Hin|Hin].
+  - subst q. unfold lookup. cbn [find]. rewrite N.eqb_refl. reflexivity.
+  - specialize (IH p Hnd' Hin). unfold lookup in *. cbn [find].
+    match goal with |- context [if ?c then _ else _] => destruct c eqn:E end.
+    + apply N.eqb_eq in E. exfalso. apply Hni.
+      exact (eq_ind_r (fun z => In z (map fst g')) (in_map fst g' p Hin) E).
+    + exact IH.
+Qed.
+
+Lemma inclb_refl : forall l, inclb l l = true.
+Proof.
+  intros l. unfold inclb. rewrite forallb_forall. intros x Hx. apply memb_In. exact Hx.
+Qed.
+
+Theorem oracle_on_model : forall g root,
+  NoDup (map fst g) ->
+  (forall p r, In p g -> In r (snd p) -> present g r = true) ->      (* the exported graph has no dangling reference *)
+  (forall p, In p g -> reach g [root] (fst p)) ->                    (* and holds exactly what is reachable from the root *)
+  oracle (g, root) (model_obs (g, root)) = true.
+Proof.
+  intros g root Hnd Hcl Hall. unfold oracle, model_obs, gc_once.
+  destruct (fuel_enough g [root]) as [m Hm]. rewrite Hm.
+  assert (Hs : sweep g m = g).
+  { apply sweep_all. intros p Hp. apply memb_In. apply (mark_complete g [root] m Hm). apply Hall. exact Hp. }
+  rewrite Hs. cbn [o_kept o_fp_equal o_post_closed o_acked o_cont_ok]. rewrite !andb_true_r.
+  apply andb_true_intro. split; [apply andb_true_intro; split|].
+  - rewrite forallb_forall. intros p Hp. apply present_In. exists (snd p). destruct p. exact Hp.
+  - rewrite forallb_forall. intros p Hp. rewrite (lookup_unique g p Hnd Hp). rewrite inclb_refl. reflexivity.
+  - rewrite forallb_forall. intros p Hp. rewrite forallb_forall. intros r Hr. exact (Hcl p r Hp Hr).
+Qed.
